@@ -28,14 +28,29 @@ WHEELS = "/opt/veriftools/wheels"
 
 
 def ensure_deps():
-    if os.path.isdir(os.path.join(DEPS, "icontract")):
+    """icontract beside the repository's interpreter (MANIFEST.setup_cmd does the same). Two checks started at the same moment in
+    a fresh checkout must not install into the same directory at once: the installation is serialised with a file lock."""
+    if os.path.isdir(os.path.join(DEPS, "icontract")) and os.path.isdir(os.path.join(DEPS, "asttokens")):
         return None
-    cmd = [PY, "-m", "pip", "install", "--quiet", "--no-index", "--find-links", WHEELS,
-           "--target", DEPS, "icontract"]
-    p = subprocess.run(cmd, stdout=subprocess.PIPE, stderr=subprocess.STDOUT, text=True)
-    if p.returncode != 0 or not os.path.isdir(os.path.join(DEPS, "icontract")):
-        return "cannot install icontract offline: " + p.stdout[-400:]
-    return None
+    import fcntl
+    try:
+        lock = open(os.path.join(ROOT, ".deps.lock"), "w")
+    except OSError:
+        lock = None
+    try:
+        if lock is not None:
+            fcntl.flock(lock, fcntl.LOCK_EX)
+        if os.path.isdir(os.path.join(DEPS, "icontract")) and os.path.isdir(os.path.join(DEPS, "asttokens")):
+            return None
+        cmd = [PY, "-m", "pip", "install", "--quiet", "--no-index", "--find-links", WHEELS,
+               "--target", DEPS, "--upgrade", "icontract"]
+        p = subprocess.run(cmd, stdout=subprocess.PIPE, stderr=subprocess.STDOUT, text=True)
+        if p.returncode != 0 or not os.path.isdir(os.path.join(DEPS, "icontract")):
+            return "cannot install icontract offline: " + p.stdout[-400:]
+        return None
+    finally:
+        if lock is not None:
+            lock.close()
 
 
 def shard_env(repo):
